@@ -230,17 +230,26 @@ Example C05_optimal_graph_example :
   gprio nat g_rprio g_tprio (DN nat g_r0 [DN nat g_ra [DL nat 0 7]]) = 1%Z.
 Proof. vm_compute. repeat split; reflexivity. Qed.
 
-(* Not proved (kept as a statement): the coded single-visit WALK of ForestSumVisitor (Forest/GraphSum.v [svw]: visited
-   set, path, packed priorities computed at visit_packed_node_out from what the children carry at that moment)
-   leaves, on an acyclic closed forest, exactly the annotation pr_sv / prf_sv that C05_optimal_graph_walk uses.
-   Tied on every run: the walk model = node.priority / packed.priority after lark's real ForestSumVisitor on the
-   exported graph (cyclic forests included), and the walk model = pr_sv on the acyclic ones (gsum_diag codes 1-3). *)
-Definition C05_sum_walk_eq_recursive_full_statement : Prop :=
-  forall (tok : Type) (teqb : tok -> tok -> bool), (forall a b, teqb a b = true <-> a = b) ->
-  forall (fams : list (nlabel tok * family tok)) (rprio rorder : rule -> Z) (tprio : nat -> tok -> Z)
-         (rk : nlabel tok -> nat) (M : nat),
+(* The coded single-visit WALK of ForestSumVisitor (Forest/GraphSum.v [svw]: visited set, path, packed priorities
+   computed at visit_packed_node_out from what the children carry at that moment, symbol priorities as the max at
+   visit_symbol_node_out) leaves, on an acyclic closed forest, exactly the annotation pr_sv that
+   C05_optimal_graph_walk uses, on every symbol node it visited (Forest/GraphSumWalk_proofs.v; the rank table is
+   bounded by the number of families, the root has a packed child).  The walk model itself is tied on every run
+   to node.priority / packed.priority after lark's real ForestSumVisitor on exported graphs, cyclic ones included. *)
+From LV Require Import Forest.GraphSumWalk_proofs.
+
+Theorem C05_sum_walk_eq_recursive (tok : Type) (teqb : tok -> tok -> bool)
+  (teqb_spec : forall a b, teqb a b = true <-> a = b)
+  (fams : list (nlabel tok * family tok)) (rprio rorder : rule -> Z) (tprio : nat -> tok -> Z)
+  (rk : nlabel tok -> nat) (M : nat) :
   rankedb tok fams rk M = true -> closedb tok teqb fams = true -> notokb tok fams = true ->
-  forall root lbl,
+  (M <= List.length fams)%nat ->
+  forall root lbl, fams_of tok teqb fams root <> [] ->
     let st := sum_walk tok teqb fams rprio rorder tprio root in
     look_sym tok teqb (sv_sym tok st) lbl <> None ->
     walk_pr tok teqb tprio st lbl = pr_sv tok teqb fams rprio tprio M lbl.
+Proof.
+  intros H1 H2 H3 HM root lbl Hr.
+  exact (sum_walk_eq_recursive tok teqb teqb_spec fams rprio rorder tprio rk M H1 H2 H3 root lbl HM Hr).
+Qed.
+Print Assumptions C05_sum_walk_eq_recursive.
